@@ -205,9 +205,15 @@ func (o Outcome) String() string {
 }
 
 // RunApp starts a fresh App with the options; panics are captured.
-func RunApp(ops ...app.SettingOption) (out Outcome) {
+func RunApp(ops ...app.SettingOption) (out Outcome) { return RunAppPre(nil, ops...) }
+
+// RunAppPre is RunApp with a hook that sees the App before it runs.
+func RunAppPre(pre func(a *app.App), ops ...app.SettingOption) (out Outcome) {
 	a := app.NewApp()
 	out.App = a
+	if pre != nil {
+		pre(a)
+	}
 	defer func() {
 		if r := recover(); r != nil {
 			out.Panic = r
